@@ -59,6 +59,16 @@ if os.environ.get('DETAIL'):
         for c_ in ground: print('   G:',str(c_).replace('\n',' ')[:400])
     fs=ground+inst+[neg]; fs=fs+smt.ord_axioms(strs,fs); fs=fs+smt.term_axioms(fs)
     r,s_,dt=smt.check(fs,10000); print('z3 stage1',r,dt)
+    if os.environ.get('EVALGOAL') and r==z3.sat:
+        m=s_.model()
+        def show(gg,ind=0):
+            if z3.is_and(gg) or z3.is_or(gg):
+                print(' '*ind+('AND' if z3.is_and(gg) else 'OR'), m.eval(gg))
+                for c in gg.children(): show(c,ind+2)
+            else:
+                v=m.eval(gg)
+                if not z3.is_true(v) or ind<=2: print(' '*ind+str(gg).replace('\n',' ')[:160],'=>',v)
+        show(g)
     if r==z3.sat:
         m=s_.model()
         for x in ints: print('   ',str(x).replace('\n',' ')[:80],'=',m.eval(x))
